@@ -50,6 +50,7 @@ import numpy as np
 from .. import gen, mon, zoo
 from ..boot import REPO
 from ..obs import exception_site
+from . import c07_bands
 
 LEVEL = "exploration"
 RULE = (
@@ -137,7 +138,8 @@ def required(tier):
     cover += [f"naming:{k}" for k in NAMING_KINDS]
     cover += ["container:da", "container:ds", "container:list", "cplx:True", "sdims:2", "op:combo", "aligned:phase", "aligned:none"]
     cover += ["input:list_sample_axes_differ", "input:fields_sample_order_differ"]
-    return {"mon": ["backend:svd", "relation:compared", "relation:transform"], "cover": cover, "max_refused_share": 0.2}
+    cover += [f"bands:{c}:std{int(st)}cos{int(cl)}" for c in c07_bands.CLASSES for st, cl in c07_bands.FLAGS]
+    return {"mon": ["backend:svd", "relation:compared", "relation:transform", "relation:lat_bands"], "cover": cover, "max_refused_share": 0.2}
 
 
 # ----------------------------------------------------------------------------
@@ -306,6 +308,7 @@ def cases(tier, seed):
     nrand = 240 if tier == "quick" else 6000
     for j in range(nrand):
         out.append(_draw(gen.rng_for(seed, 7, j)))
+    out += c07_bands.cases(tier, seed)
     return out
 
 
@@ -912,6 +915,8 @@ def compare(obs, case, rb, rv, K, aligned):
 
 # ----------------------------------------------------------------------------
 def run_case(case, obs):
+    if case.get("kind") == "bands":
+        return c07_bands.run(case, obs)
     cls = case["cls"]
     parts = list(case["parts"])
     obs.tag(cls=cls, op=case["op"], container=case["container"], names_default=case["naming"] is None)
